@@ -23,14 +23,18 @@ package batch
 //@ spec qopsNonNil(ops []*operation.QueuedOperation) bool { forall q int :: 0 <= q && q < len(ops) ==> ops[q] != nil }
 //
 //@ ghost lastAddFailed bool
+// ghost: the batch handed out by the last Cut
+//@ ghost lastCutOps []*operation.QueuedOperation
+//@ ghost lastCutVersion uint64
 //@ iface batchCutter.Add
 //@   results n, err
 //@   modifies addCalls, lastReaddVersion, lastAddFailed
 //@   ensures addCalls == old(addCalls) + 1 && lastReaddVersion == protocolVersion && lastAddFailed == (err != nil)
 //@ iface batchCutter.Cut
 //@   results res, err
-//@   modifies cutCalls, lastCutOK, forcedCuts
+//@   modifies cutCalls, lastCutOK, forcedCuts, lastCutOps, lastCutVersion
 //@   ensures cutCalls == old(cutCalls) + 1 && lastCutOK == (err == nil) && forcedCuts == old(forcedCuts) + cond(force, 1, 0)
+//@   ensures err == nil ==> lastCutOps == res.Operations && lastCutVersion == res.ProtocolVersion
 //@   ensures err == nil ==> qopsNonNil(res.Operations)
 //@ iface Context.Anchor
 //@   ensures result != nil
@@ -67,7 +71,7 @@ package batch
 //   the whole batch goes to the handler; the k-th deferred operation is the one re-queued by the k-th Add, under the
 //   version of the batch
 //@   atcall PrepareTxnFiles arg1 == ops_0
-//@   atcall Add arg1 == anchoringInfo.AdditionalOperations[_k] && arg2 == protocolVersion
+//@   atcall Add arg1 == anchoringInfo.AdditionalOperations[_k] && arg2 == protocolVersion_0
 //@   loop 1
 //@     invariant anchorsWritten == old(anchorsWritten) + 1 && addCalls <= old(addCalls) + _k && addOffered == old(addOffered) + _k
 //@     invariant addCalls > old(addCalls) ==> lastReaddVersion == protocolVersion
@@ -83,7 +87,7 @@ package batch
 //@ func (*Writer).cutAndProcess
 //@   requires writerOK(r)
 //   what was cut is what is processed, under the protocol version the cutter reports for it
-//@   atcall process arg1 == result.Operations && arg2 == result.ProtocolVersion
+//@   atcall process arg1 == lastCutOps && arg2 == lastCutVersion
 //@   results n, pending, err
 //@   ensures err != nil ==> acks == old(acks) && n == 0
 //@   ensures err != nil && anchorsWritten == old(anchorsWritten) && cutCalls == old(cutCalls) + 1 ==> nacks <= old(nacks) + 1
@@ -93,7 +97,7 @@ package batch
 //   a batch that was cut is always settled: acknowledged after the anchor was written, or given back (nack) - never dropped
 //@   ensures err != nil && lastCutOK ==> nacks == old(nacks) + 1
 //@   ensures cutCalls == old(cutCalls) + 1 && forcedCuts == old(forcedCuts) + cond(forceCut, 1, 0)
-//@   modifies anchorsWritten, addCalls, addOffered, lastAdditional, acks, nacks, cutCalls, lastCutOK, forcedCuts, lastAnchorVersion, lastReaddVersion, lastHandler, lastAddFailed
+//@   modifies anchorsWritten, addCalls, addOffered, lastAdditional, acks, nacks, cutCalls, lastCutOK, forcedCuts, lastCutOps, lastCutVersion, lastAnchorVersion, lastReaddVersion, lastHandler, lastAddFailed
 
 // a batch smaller than the maximum is cut only on the batch timeout: draining never forces a cut, and processAvailable
 // forces at most one, and only when its caller (the batch-timeout tick) asks for it
@@ -102,9 +106,9 @@ package batch
 //@   loop 1
 //@     invariant forcedCuts == old(forcedCuts)
 //@   ensures forcedCuts == old(forcedCuts)
-//@   modifies anchorsWritten, addCalls, addOffered, lastAdditional, acks, nacks, cutCalls, lastCutOK, forcedCuts, lastAnchorVersion, lastReaddVersion, lastHandler, lastAddFailed
+//@   modifies anchorsWritten, addCalls, addOffered, lastAdditional, acks, nacks, cutCalls, lastCutOK, forcedCuts, lastCutOps, lastCutVersion, lastAnchorVersion, lastReaddVersion, lastHandler, lastAddFailed
 //@ func (*Writer).processAvailable
 //@   requires writerOK(r)
 //@   ensures !forceCut ==> forcedCuts == old(forcedCuts)
 //@   ensures forcedCuts <= old(forcedCuts) + 1
-//@   modifies anchorsWritten, addCalls, addOffered, lastAdditional, acks, nacks, cutCalls, lastCutOK, forcedCuts, lastAnchorVersion, lastReaddVersion, lastHandler, lastAddFailed
+//@   modifies anchorsWritten, addCalls, addOffered, lastAdditional, acks, nacks, cutCalls, lastCutOK, forcedCuts, lastCutOps, lastCutVersion, lastAnchorVersion, lastReaddVersion, lastHandler, lastAddFailed
